@@ -650,10 +650,9 @@ impl<
     fn next(&mut self) -> Option<Self::Item> {
         match self {
             Self::Spilled(spilled, snapshot) => {
-                // First drain from half_constructed
-                if let Some(item) = spilled.half_constructed.next() {
-                    let item = item;
-
+                // First drain from half_constructed, skipping the elements
+                // whose removal is staged
+                for item in spilled.half_constructed.by_ref() {
                     if snapshot.removed.contains(&item).not() {
                         return Some(item);
                     }
